@@ -159,8 +159,6 @@ pub fn fresh_id() -> u64 {
 thread_local! {
     static ORD_RUN: Cell<u64> = const { Cell::new(0) };
     static ORDS: [Cell<u64>; 5] = const { [Cell::new(0), Cell::new(0), Cell::new(0), Cell::new(0), Cell::new(0)] };
-    static PENDING_N: Cell<usize> = const { Cell::new(0) };
-    static PENDING: [Cell<(*mut u8, usize)>; 16] = const { [const { Cell::new((std::ptr::null_mut(), 0)) }; 16] };
 }
 
 #[inline]
@@ -210,25 +208,38 @@ fn skew(phase: u64) {
     }
 }
 
-fn free_pending() {
-    let _ = PENDING_N.try_with(|n| {
-        let cnt = n.get();
-        let _ = PENDING.try_with(|p| {
-            for cell in p.iter().take(cnt) {
-                let (ptr, size) = cell.get();
-                if !ptr.is_null() {
-                    unsafe { dealloc(ptr, Layout::from_size_align(size, 8).unwrap()) };
-                }
-            }
-        });
-        n.set(0);
-    });
+// Blocks a call script leaves allocated ("pending") are parked in a global table row owned by the
+// thread's divan index, freed by that thread's next `gen` (outside any timed window) and, for what is
+// left at the end of a run, by the main thread.
+const ROWS: usize = 40;
+const ROW_LEN: usize = 16;
+static PEND_PTR: [[AtomicPtr<u8>; ROW_LEN]; ROWS] = [const { [const { AtomicPtr::new(std::ptr::null_mut()) }; ROW_LEN] }; ROWS];
+static PEND_SIZE: [[AtomicU64; ROW_LEN]; ROWS] = [const { [const { AtomicU64::new(0) }; ROW_LEN] }; ROWS];
+static PEND_N: [AtomicU64; ROWS] = [const { AtomicU64::new(0) }; ROWS];
+
+fn free_row(row: usize) {
+    let n = PEND_N[row].swap(0, Relaxed) as usize;
+    for i in 0..n.min(ROW_LEN) {
+        let ptr = PEND_PTR[row][i].swap(std::ptr::null_mut(), Relaxed);
+        let size = PEND_SIZE[row][i].load(Relaxed) as usize;
+        if !ptr.is_null() {
+            unsafe { dealloc(ptr, Layout::from_size_align(size, 8).unwrap()) };
+        }
+    }
 }
 
-/// Frees blocks that call scripts left pending on this thread (call at run end on
-/// the main thread; worker threads free theirs in their next `gen`).
+fn free_pending() {
+    let k = evlog::kidx() as usize;
+    if k < ROWS {
+        free_row(k);
+    }
+}
+
+/// Frees blocks that call scripts left pending on any thread (call on the main thread after the run).
 pub fn end_of_run_cleanup() {
-    free_pending();
+    for row in 0..ROWS {
+        free_row(row);
+    }
 }
 
 fn churn(n: u64, size: u64) {
@@ -292,19 +303,18 @@ fn call_allocs() {
             unsafe { dealloc(p, Layout::from_size_align(old, 8).unwrap()) };
         }
     } else {
-        // Leave blocks pending; the next `gen` on this thread frees them (outside
-        // any timed window).
-        let _ = PENDING_N.try_with(|n| {
-            let mut cnt = n.get();
-            let _ = PENDING.try_with(|p| {
-                while top > 0 && cnt < 16 {
-                    top -= 1;
-                    p[cnt].set(stack[top]);
-                    cnt += 1;
-                }
-            });
-            n.set(cnt);
-        });
+        // Leave blocks pending; the next `gen` on this thread frees them (outside any timed window).
+        let k = evlog::kidx() as usize;
+        if k < ROWS {
+            let mut cnt = PEND_N[k].load(Relaxed) as usize;
+            while top > 0 && cnt < ROW_LEN {
+                top -= 1;
+                PEND_PTR[k][cnt].store(stack[top].0, Relaxed);
+                PEND_SIZE[k][cnt].store(stack[top].1 as u64, Relaxed);
+                cnt += 1;
+            }
+            PEND_N[k].store(cnt as u64, Relaxed);
+        }
         while top > 0 {
             top -= 1;
             let (p, old) = stack[top];
